@@ -5,6 +5,7 @@ import CssVerif.Lemmas.TokAppend
 import CssVerif.Lemmas.TokLex2Sep
 import CssVerif.Lemmas.TokStrItems
 import CssVerif.Lemmas.TokIdentU
+import CssVerif.Lemmas.TokURange
 import CssVerif.Lemmas.TokFull
 import CssVerif.Lemmas.TokLex2Full
 import CssVerif.Lemmas.TokPush
@@ -366,7 +367,7 @@ white space, `)`), UNICODE-RANGE (`U+`/`u+`, one to six hex digits or `?`), COMM
 neighbours; a COMMENT token is not yielded when comments are off. S (any run of white space) and INVALID (which a
 space does not end) have class theorems of their own.
 Still on the classification oracle only: names with escapes or non-ASCII code points, signed / fractional numbers,
-unquoted URLs with escapes, UNICODE-RANGE intervals. -/
+unquoted URLs with escapes. -/
 
 /-- **T5.6 for all token classes** (plain lexemes): a text produced from grammar tokens of the classes NUMBER,
 PERCENTAGE, DIMENSION, HASH, IDENT, ATKEYWORD incl. the reserved at-rules, the match operators, CDO, CDC, the
@@ -514,6 +515,14 @@ theorem unicode_range_class_partial (doC : Bool) (u h : Nat) (hs stop : Cps) (hu
     (hh : ∀ x ∈ h :: hs, inR hexq x = true) (hlen : (h :: hs).length ≤ 6) (hst : Sep stop) :
     scan false doC (u :: 43 :: (h :: hs ++ stop)) productions = .hit "UNICODE-RANGE" ((h :: hs).length + 2) :=
   scan_urange doC u h hs stop hu hh hlen hst
+
+/-- UNICODE-RANGE interval `U+0-7F`, followed by the end of the text or a space -/
+theorem unicode_range_interval_class (doC : Bool) (u h : Nat) (hs : Cps) (h2 : Nat) (hs2 stop : Cps) (hu : IsU u)
+    (hh : ∀ x ∈ h :: hs, inR hexq x = true) (hlen : (h :: hs).length ≤ 6)
+    (hh2 : ∀ x ∈ h2 :: hs2, inR hexOnly x = true) (hlen2 : (h2 :: hs2).length ≤ 6) (hst : Sep stop) :
+    scan false doC (u :: 43 :: (h :: hs ++ 45 :: (h2 :: hs2 ++ stop))) productions =
+      .hit "UNICODE-RANGE" ((h :: hs).length + 2 + (1 + (h2 :: hs2).length)) :=
+  scan_urange_interval doC u h hs h2 hs2 stop hu hh hlen hh2 hlen2 hst
 
 /-- the hypotheses are satisfiable: `"a'b" f( url(x.png) U+2?? /* c */ --> ab` -/
 example : ∀ t ∈ [Lex2.str 34 [97, 39, 98], .fn 102 [], .uri 117 114 108 [120, 46, 112, 110, 103],
